@@ -327,6 +327,12 @@ impl Property for C17Prop {
                     verdict.violations.push(viol("C17", "C17.no-progress", format!("step budget exhausted with tasks blocked on locks: {}", sig), sig));
                 }
             }
+            Outcome::Panic { msg, .. } if msg.contains("tried to acquire a Mutex it already holds") => {
+                // a task that takes a lock it holds already: with std's mutexes it blocks forever (or panics); the
+                // controlled scheduler reports it as a panic of that task
+                let role = if msg.contains("timer") { "timer" } else if msg.contains("fsm") { "session" } else { "host" };
+                verdict.violations.push(viol("C17", "C17.deadlock", format!("a task locks a mutex it holds already: {}", msg), format!("self-deadlock:{}", role)));
+            }
             Outcome::Panic { msg, location, .. } => {
                 verdict.other_rules.push(format!("C12.panic@{}:{}", location, msg.chars().take(60).collect::<String>()));
                 verdict.discarded = Some("panic (C12)".into());
